@@ -255,7 +255,6 @@ func handleMethod(svr interface{}, serviceName string, desc *grpc.MethodDesc, un
 		if p := peerFromRequest(r); p != nil {
 			ctx = peer.NewContext(ctx, p)
 		}
-		defer drainAndClose(r.Body)
 		if r.Method != "POST" {
 			w.Header().Set("Allow", "POST")
 			writeError(w, http.StatusMethodNotAllowed)
@@ -275,6 +274,13 @@ func handleMethod(svr interface{}, serviceName string, desc *grpc.MethodDesc, un
 			return
 		}
 		defer cancel()
+
+		// The request is accepted: from here on its body is read to the end,
+		// whatever the handler does. (Not before: a refusal must not wait for
+		// a body that a client sending "Expect: 100-continue" holds back
+		// until it has an answer; what is left unread of a refused request is
+		// net/http's business.)
+		defer drainAndClose(r.Body)
 
 		req, err := ioutil.ReadAll(r.Body)
 		if err != nil {
@@ -366,7 +372,6 @@ func handleStream(svr interface{}, serviceName string, desc *grpc.StreamDesc, st
 		if p := peerFromRequest(r); p != nil {
 			ctx = peer.NewContext(ctx, p)
 		}
-		defer drainAndClose(r.Body)
 		if r.Method != "POST" {
 			w.Header().Set("Allow", "POST")
 			writeError(w, http.StatusMethodNotAllowed)
@@ -386,6 +391,10 @@ func handleStream(svr interface{}, serviceName string, desc *grpc.StreamDesc, st
 			return
 		}
 		defer cancel()
+
+		// the request is accepted: its body is read to the end whatever the
+		// handler does (see handleMethod for why not before)
+		defer drainAndClose(r.Body)
 
 		w.Header().Set("Content-Type", contentType)
 
